@@ -12,6 +12,7 @@ import (
 	"os"
 	"runtime"
 	"runtime/debug"
+	"strconv"
 	"strings"
 	"testing"
 	"time"
@@ -89,6 +90,10 @@ func TestVFReplay(t *testing.T) {
 	if err := json.Unmarshal(b, &cases); err != nil {
 		t.Fatal(err)
 	}
+	hangS := 90
+	if v, err := strconv.Atoi(os.Getenv("VF_REPLAY_HANG_S")); err == nil && v > 0 {
+		hangS = v
+	}
 	for i, c := range cases {
 		// each case under a watchdog: a case that blocks natively (the executor said the path completes)
 		// is reported with the stack of its goroutine and the run goes on with the next case
@@ -101,7 +106,7 @@ func TestVFReplay(t *testing.T) {
 		var r res
 		select {
 		case r = <-done:
-		case <-time.After(90 * time.Second):
+		case <-time.After(time.Duration(hangS) * time.Second):
 			buf := make([]byte, 1<<20)
 			n := runtime.Stack(buf, true)
 			st := ""
